@@ -892,7 +892,10 @@ pub fn parse_line(line: &str) -> Option<(Cfg, Init, Vec<Step>)> {
     for t in &w[3..] { steps.push(Step::parse(t)?); }
     // attaching a stream waits for the socket: the paused clock could jump meanwhile
     // un-polled time stays below two hold intervals (the hold timer never has two ticks outstanding when it is reset)
-    let wsum: u64 = steps.iter().map(|s| if let Step::Wait(d) = s { *d as u64 } else { 0 }).sum();
+    // (every `T` also lets time pass without necessarily taking the hold timer's tick: at most one keepalive interval,
+    // hold/3, at least 1 s - counted too since a thorough-tier line `h ..h3 .. mK T T W3 W1 mU:1 T` showed a stale hold
+    // tick after the reset: 2 s of `T` + 4 s of `W` = two hold times since the hold timer was armed)
+    let wsum: u64 = steps.iter().map(|s| match s { Step::Wait(d) => *d as u64, Step::Timer => std::cmp::max(1, cfg.h as u64 / 3), _ => 0 }).sum();
     if cfg.h != 0 && wsum >= 2 * cfg.h as u64 { return None; }
     // raw octets never make `parse_frame` decide: after every `pB` the octets written so far are fewer than 18, or carry a
     // length field >= 19 that announces more than is there; with a second connection on the line at most 17 in all; <= 5 steps
